@@ -29,6 +29,13 @@ static void *vmm_take(size_t size, int zero) {
 	if (size == sizeof(URI_TYPE(PathSegment))) p = zero ? calloc(1, sizeof(URI_TYPE(PathSegment))) : malloc(sizeof(URI_TYPE(PathSegment)));
 	else if (size == sizeof(URI_TYPE(QueryList))) p = zero ? calloc(1, sizeof(URI_TYPE(QueryList))) : malloc(sizeof(URI_TYPE(QueryList)));
 	else if (size == sizeof(UriIp6)) p = zero ? calloc(1, sizeof(UriIp6)) : malloc(sizeof(UriIp6));
+# ifdef VMM_MAXCONST
+	else if (size % sizeof(wchar_t) == 0 && size > sizeof(UriIp4) && size <= VMM_MAXCONST) {
+		size_t k_;         /* constant element count in each branch (see below) */
+		p = NULL;
+		for (k_ = 2; k_ <= VMM_MAXCONST / sizeof(wchar_t); k_++) if (k_ * sizeof(wchar_t) == size) { p = zero ? calloc(k_, sizeof(wchar_t)) : malloc(k_ * sizeof(wchar_t)); }
+	}
+# endif
 	else if (size % sizeof(wchar_t) == 0 && size > sizeof(UriIp4)) p = zero ? calloc(size / sizeof(wchar_t), sizeof(wchar_t)) : malloc((size / sizeof(wchar_t)) * sizeof(wchar_t));
 	else
 #endif
